@@ -38,6 +38,7 @@ type c08In struct {
 	SleepMS     []int    `json:"callback_sleep_ms"`
 	FailReadDir int      `json:"fail_readdir_at"`  // n-th ReadDir call fails (-1: none)
 	FailCall    int      `json:"fail_callback_at"` // n-th callback fails (-1: none)
+	FailCalls   []int    `json:"fail_callbacks,omitempty"` // further failing callbacks (each returns its own error value)
 }
 
 func c08Accept(salt int, path string) bool {
@@ -120,6 +121,19 @@ func c08Gen(r *Rand, tier string) interface{} {
 		in.FailReadDir = r.Intn(1 + len(in.Dirs))
 	case 1:
 		in.FailCall = r.Intn(1 + len(in.Dirs) + len(in.Files))
+	case 2:
+		// several callbacks fail (possibly while another one is still running): every returned
+		// error must be in the list, not just one of them
+		in.FailCall = r.Intn(1 + len(in.Dirs) + len(in.Files))
+		for k := 0; k < 1+r.Intn(2); k++ {
+			in.FailCalls = append(in.FailCalls, r.Intn(1+len(in.Dirs)+len(in.Files)))
+		}
+		if in.Consumers < 2 {
+			in.Consumers = 2
+		}
+		if in.MaxJob < 2 {
+			in.MaxJob = 2
+		}
 	}
 	return in
 }
@@ -174,6 +188,7 @@ func c08Run(inI interface{}, env *Env) *Failure {
 		runningAtWait     int
 		loopErrs          []error
 		effConsumers      int
+		returned          []error // every error value a callback returned
 		st                = &FaultState{FailAt: map[int]string{}}
 		setupErr          error
 	)
@@ -230,7 +245,16 @@ func c08Run(inI interface{}, env *Env) *Failure {
 				running--
 				if idx == in.FailCall {
 					env.Count("fault.callback-error")
+					returned = append(returned, errC08Callback)
 					return errC08Callback
+				}
+				for _, fc := range in.FailCalls {
+					if idx == fc {
+						env.Count("fault.callback-error")
+						e := fmt.Errorf("injected callback error #%d", idx)
+						returned = append(returned, e)
+						return e
+					}
 				}
 				return nil
 			}
@@ -274,14 +298,25 @@ func c08Run(inI interface{}, env *Env) *Failure {
 	injected := false
 	for _, e := range loopErrs {
 		var ie *ErrInjected
-		if errors.As(e, &ie) || errors.Is(e, errC08Callback) {
+		if errors.As(e, &ie) {
 			injected = true
 		}
 	}
 	firedRead := in.FailReadDir >= 0 && env.Counters["fault.op-error"] > 0
-	firedCall := in.FailCall >= 0 && env.Counters["fault.callback-error"] > 0
-	if (firedRead || firedCall) && !injected {
-		return failf("C08/error-missing", shape, "an injected listing/callback error is not in Errors(): %v", loopErrs)
+	firedCall := len(returned) > 0
+	if firedRead && !injected {
+		return failf("C08/error-missing", shape, "the injected listing error is not in Errors(): %v", loopErrs)
+	}
+	for _, re := range returned {
+		found := false
+		for _, e := range loopErrs {
+			if e == re || errors.Is(e, re) {
+				found = true
+			}
+		}
+		if !found {
+			return failf("C08/error-missing", shape+"/one-of-several", "a callback returned %q but it is not in Errors(): %v", re, loopErrs)
+		}
 	}
 	if maxRun > effConsumers {
 		return failf("C08/concurrency-bound", shape, "%d callbacks ran at once with %d consumers", maxRun, effConsumers)
@@ -355,6 +390,7 @@ func c08Shrink(inI interface{}) []interface{} {
 		c.Files = append([]string(nil), in.Files...)
 		c.LatencyMS = append([]int(nil), in.LatencyMS...)
 		c.SleepMS = append([]int(nil), in.SleepMS...)
+		c.FailCalls = append([]int(nil), in.FailCalls...)
 		return &c
 	}
 	for i := range in.Files {
@@ -379,6 +415,11 @@ func c08Shrink(inI interface{}) []interface{} {
 	if len(in.LatencyMS) > 0 {
 		c := cp()
 		c.LatencyMS = nil
+		out = append(out, c)
+	}
+	if len(in.FailCalls) > 1 {
+		c := cp()
+		c.FailCalls = c.FailCalls[:1]
 		out = append(out, c)
 	}
 	if len(in.SleepMS) > 0 {
